@@ -109,7 +109,7 @@ def run(ctx: Ctx) -> None:
 
     cases = []
     for _ in range(ctx.budget(3000, 50000)):
-        d = trees.rand_tree(rng, rng.choice([1, 2, 3, 3, 4, 5]), leaves="TTHRM", names="bbiiivsc", flip_ws=0.2)
+        d = trees.rand_tree(rng, rng.choice([1, 2, 3, 3, 4, 5]), leaves="TTHRM", names="bbiiivsck", flip_ws=0.2)
         cases.append((d, rng.randrange(0, 5), rng.choice(EOLS)))
 
     # flat forms of every inline run, from the extracted specification
@@ -160,7 +160,7 @@ def run(ctx: Ctx) -> None:
     # top-level lists (add_ws True / False)
     lcases = []
     for _ in range(ctx.budget(1000, 15000)):
-        items = [trees.rand_child(rng, rng.choice([0, 1, 2]), leaves="TTHRM", names="bbiiivsc", flip_ws=0.2)
+        items = [trees.rand_child(rng, rng.choice([0, 1, 2]), leaves="TTHRM", names="bbiiivsck", flip_ws=0.2)
                  for _ in range(rng.choice([1, 2, 3, 4, 5]))]
         lcases.append((items, rng.randrange(0, 4), rng.choice(EOLS), rng.random() < 0.5))
     differential(
